@@ -481,7 +481,7 @@ func genScenario(t *rapid.T) (scenario, slog.Attrs, []any) {
 	sc.Recolour = rapid.SampledFrom([]int{0, 0, 0, 1, 2, 3, 4}).Draw(t, "recolour")
 	sc.How = rapid.SampledFrom([]int{0, 0, 1, 2, 3}).Draw(t, "howColoredIsSet")
 	sc.FlagsHow = rapid.SampledFrom([]int{0, 0, 1, 2, 3, 4}).Draw(t, "flagsHow")
-	sc.Disturb = rapid.SampledFrom([]int{0, 0, 0, 1, 2, 3, 4, 5, 6, 7}).Draw(t, "disturbance")
+	sc.Disturb = vlib.GenDisturb().Draw(t, "disturbance")
 	sc.PreLog = rapid.IntRange(0, 3).Draw(t, "preLogWhileUnregistered") == 0
 	sc.TS = vlib.GenTime().Draw(t, "ts")
 	sc.ViaVerb = rapid.IntRange(0, 3).Draw(t, "viaVerb") == 0
